@@ -1,4 +1,5 @@
 import SamplyModel.Lemmas.ProfileCanonical
+import SamplyModel.Lemmas.ProfileIdentSer
 /-!
 # C03 — every serialized profile is internally consistent (no dangling index)
 
@@ -116,12 +117,32 @@ theorem C03_counter_main_thread (ops : List Op) (h : Accepted ops = true) :
       (∀ x ∈ procBlock (run ops) c.process, ∃ t, (run ops).threads[x]? = some t ∧ t.process = c.process) := by
   have hi := Inv.run ops h
   intro c hc
-  have hpi := hi.1.counters c hc
+  have hpi := hi.1.counters_lt c hc
   refine ⟨?_, fun x hx => procBlock_thread _ hi.2 _ x hx⟩
   intro k hk
   rcases firstThreadIndex_denotes _ c.process hpi k with h1 | h1
   · exact h1
   · omega
+
+/-- **Identity clauses, stated on the serialized profile** (the predicate `identOk` is the one the judge
+evaluates on the implementation's tables, there with a caller-side view computed from the op lines): for
+every accepted history and the profile `s` it serializes to — exactly the created threads are serialized;
+pid strings of different processes differ; every thread handle is found under its tid string and that
+serialized thread carries its process's pid string and its main flag; `initialVisibleThreads[k]` /
+`initialSelectedThreads[k]` is the position of the thread (found by tid string) the caller passed in the
+`k`-th call; `counters[c].pid` is the pid string of the process the caller named and, if that process has
+a thread, `counters[c].mainThreadIndex` is the position of the first thread in `s.threads` carrying that
+pid string. `P.view` only projects the model state to what the caller knows (handle ↦ pid / tid string,
+process, main flag); no helper of the model's serializer occurs in the statement. -/
+theorem C03_identity (ops : List Op) (h : Accepted ops = true) (s : SerProfile)
+    (hs : serialize (run ops) = some s) : identOk (run ops).view s = true :=
+  identOk_of_inv _ (Inv.run ops h).1 (Inv.run ops h).2 s hs
+
+/-- the pid a counter was created with is the pid of its process at every later time (counters.rs keeps
+the pid string; `Process` has no pid setter) -/
+theorem C03_counter_pid (ops : List Op) (h : Accepted ops = true) :
+    ∀ c ∈ (run ops).counters, ∃ pr, (run ops).processes[c.process]? = some pr ∧ pr.pid = c.pid :=
+  (Inv.run ops h).1.counters
 
 /-- within a process's block the threads are ordered by `cmp_for_json_order` (a total preorder, so this
 holds for any stable or unstable sort by it); in particular main threads come first — in every state -/
@@ -243,6 +264,16 @@ example : (run C03_example).threads.map (fun t => (t.frames.keys.length, t.stack
 set_option maxRecDepth 8192 in
 example : (run C03_example).processes.map (·.pid) = [(7, 0), (7, 1)] ∧
     (run C03_example).threads.map (·.tid) = [(1, 0), (1, 2), (2, 0)] := by decide
+-- `C03_identity` is not vacuous: the example serializes (two processes, three threads, a counter, positional
+-- references) and the serialized profile satisfies `identOk`
+set_option maxRecDepth 8192 in
+example : ∃ s, serialize (run C03_example) = some s ∧ identOk (run C03_example).view s = true := by
+  have ha : Accepted C03_example = true := by decide
+  obtain ⟨s, hs, _⟩ := C03_wf _ ha
+  exact ⟨s, hs, C03_identity _ ha s hs⟩
+set_option maxRecDepth 8192 in
+example : (run C03_example).threads.map (fun t => (t.process, t.isMain)) = [(0, true), (0, false), (1, true)] ∧
+    (run C03_example).counters.map (·.process) = [1] ∧ (run C03_example).visible = [2] := by decide
 -- the call with a frame of another thread is rejected
 set_option maxRecDepth 8192 in
 example : (step (run (C03_example.take 23)) (.stack 1 (0, 0) none)).2 = .rejected := by decide
